@@ -268,7 +268,7 @@ def build_case(n, m, A, affine, local, term):
 
 
 # ------------------------------------------------------------------------------- replay / oracle
-def brute_force(code1, code2, matrix, gap, affine, local, term):
+def brute_force(code1, code2, matrix, gap, affine, local, term, require_pair=False):
     n, m = len(code1), len(code2)
 
     def score_of(aln, i0, j0, t):
@@ -300,6 +300,9 @@ def brute_force(code1, code2, matrix, gap, affine, local, term):
                     tot += gap
         return tot
     if not local:
+        if require_pair:
+            vals = [s for s in (score_of(a, 0, 0, term) for a in alignments(n, m) if any(c[0] == "m" for c in a)) if s is not None]
+            return max(vals) if vals else None
         return max(s for s in (score_of(a, 0, 0, term) for a in alignments(n, m)) if s is not None)
     best = 0
     for i0 in range(n + 1):
